@@ -196,6 +196,10 @@ pub fn canon_pair(fam: &str, kmax: i64, rng: &mut Rng) -> (Vec<(Vec<P>, Vec<Vec<
         let (x, y) = gen::frames_pair(rng);
         return if rng.chance(1, 2) { (x, y) } else { (y, x) };
     }
+    if fam == "fan" {
+        let (x, y) = gen::fan_pair(rng);
+        return if rng.chance(1, 2) { (x, y) } else { (y, x) };
+    }
     if fam == "lat" {
         let (x, y) = gen::lat_pair(rng);
         return if rng.chance(1, 2) { (x, y) } else { (y, x) };
